@@ -116,13 +116,7 @@ def check(chk: Check) -> None:
                 'returns its token on every path with the matched text unchanged' if (rets == 'always' and not rm.value_changed) else
                 ('the identifier rule %s' % ('changes t.value' if rm.value_changed else 'does not always return its token')))
     idx = lm.order.index(IDENT)
-    problems = []
-    for name in lm.order[:idx]:
-        r = lm.rules[name]
-        for ch in IDENT_START_SAMPLE:
-            if LM.first_chars_can(r.parsed, ch) and not _prefix_then_quote(r.parsed, ch):
-                problems.append('rule %s (tried before %s) can start with %r' % (name, IDENT, ch))
-                break
+    problems = identifier_prefix_thieves(lm, IDENT)
     chk.require(not problems, R2, 'rules tried before t_%s' % IDENT, lm.spec.module.rel,
                 '; '.join(problems) or '%d earlier rules cannot swallow the start of an identifier (raw-string prefix must be followed by a quote)' % idx)
     # comments: emit nothing, nothing else starts with the comment character, a match cannot span lines
@@ -218,6 +212,22 @@ def check(chk: Check) -> None:
         chk.require(not problems, R3, 'template ' + t.key, where, '; '.join(sorted(set(problems))) or t.show()[:100])
     chk.extra['implicit_names_used'] = sorted(used_implicit)
     chk.extra['looked_up_fields'] = sorted('%s.%s' % (c.rsplit('.', 1)[-1], f) for c, f in looked)
+
+
+def identifier_prefix_thieves(lm, IDENT) -> List[str]:
+    """Rules tried before the identifier rule that can match the first characters of a longer identifier (and so cut it in
+    two): they can start with an identifier-start character and can stop on a word character without demanding a word
+    boundary.  The raw-string prefix (r\"...) is the recognised exception."""
+    idx = lm.order.index(IDENT)
+    problems = []
+    for name in lm.order[:idx]:
+        r = lm.rules[name]
+        for ch in IDENT_START_SAMPLE:
+            if LM.first_chars_can(r.parsed, ch) and not _prefix_then_quote(r.parsed, ch) and LM.last_char_can_be_word(r.parsed):
+                problems.append('rule %s (tried before %s) can start with %r and stop in the middle of a word: the identifier '
+                                '`%s...` is cut in two' % (name, IDENT, ch, ch))
+                break
+    return problems
 
 
 def _prefix_then_quote(parsed, ch: str) -> bool:
